@@ -423,6 +423,10 @@ func genWord(r *plan.Rand, a *alphabet) string {
 		n = 1
 	case 1:
 		n = 60
+	case 2:
+		if r.Intn(4) == 0 {
+			n = 300
+		}
 	}
 	var b []rune
 	for i := 0; i < n; i++ {
